@@ -246,6 +246,7 @@ def gen_cases(tier, seed):
     parts = [lambda k: leaf("sig", f"s{k}", 1), lambda k: leaf("sig", f"s{k}", 2),
              lambda k: {"k": "slice", "of": leaf("sig", f"s{k}", 3), "idx": R(1, 3, None)},
              lambda k: {"k": "slice", "of": leaf("sig", f"s{k}", 2), "idx": I(-1)},
+             lambda k: {"k": "slice", "of": leaf("sig", f"s{k}", 3), "idx": R(1, 9, None)},       # a stop bound beyond the parent: clamped, 2 bits
              lambda k: leaf("pref", f"i{k}", 2), lambda k: leaf("bref", f"b{k}", 2),
              lambda k: {"k": "cat", "parts": [leaf("sig", f"s{k}", 1), leaf("sig", f"t{k}", 2)]}]
     for n in (1, 2, 3):
